@@ -42,6 +42,7 @@ func runC19(p *an.Prog, r *an.Run, tier string) {
 	// the url literal
 	var urlAlloc *ssa.Alloc
 	stores := map[string]*ssa.Store{}
+	var userStores []*ssa.Store
 	an.AllInstrs(nz, func(in ssa.Instruction) {
 		st, ok := in.(*ssa.Store)
 		if !ok {
@@ -56,6 +57,9 @@ func runC19(p *an.Prog, r *an.Run, tier string) {
 		if al, ok := root.(*ssa.Alloc); ok {
 			urlAlloc = al
 			stores[fv.Name()] = st
+			if fv.Name() == "User" {
+				userStores = append(userStores, st)
+			}
 		}
 	})
 	if urlAlloc == nil {
@@ -67,9 +71,19 @@ func runC19(p *an.Prog, r *an.Run, tier string) {
 	if st := stores["User"]; st == nil {
 		bad = append(bad, "the advertised URL has no user (node id) part")
 	} else {
-		c, ok := st.Val.(*ssa.Call)
-		if !ok || !(an.IsFunc(an.CallObj(c), "net/url", "User")) || c.Call.Args[0] != ssa.Value(idPrm) {
-			bad = append(bad, "the user part of the advertised URL is not url.User(nodeID) of the authenticated node id (a host could be advertised under another identity)")
+		var vals []ssa.Value
+		for _, us := range userStores {
+			if phi, ok := us.Val.(*ssa.Phi); ok {
+				vals = append(vals, phi.Edges...)
+			} else {
+				vals = append(vals, us.Val)
+			}
+		}
+		for _, v := range vals {
+			c, ok := v.(*ssa.Call)
+			if !ok || !(an.IsFunc(an.CallObj(c), "net/url", "User")) || c.Call.Args[0] != ssa.Value(idPrm) {
+				bad = append(bad, "the user part of the advertised URL is not always url.User(nodeID) of the authenticated node id (an override's own userinfo — empty, foreign, or carrying a password — could be advertised)")
+			}
 		}
 	}
 	if st := stores["Scheme"]; st == nil {
@@ -264,6 +278,28 @@ func runC19(p *an.Prog, r *an.Run, tier string) {
 		if !okStore {
 			bad = append(bad, "the node's stored URI is not the normalised one")
 		}
+		// every URI stored for the node comes from the normalisation (no fast path around its refusals)
+		an.AllInstrs(conn, func(in ssa.Instruction) {
+			st, ok := in.(*ssa.Store)
+			if !ok {
+				return
+			}
+			fv := an.FieldOf(st.Addr)
+			n := structOfFieldAccess(st.Addr)
+			if fv == nil || fv.Name() != "URI" || n == nil || n.Obj().Name() != "Node" {
+				return
+			}
+			vals := []ssa.Value{st.Val}
+			if phi, ok := st.Val.(*ssa.Phi); ok {
+				vals = phi.Edges
+			}
+			for _, v := range vals {
+				if ex, ok := v.(*ssa.Extract); ok && ex.Tuple == nzCall.Value() && ex.Index == 0 {
+					continue
+				}
+				bad = append(bad, "a node URI that did not come out of normalizeNodeURI is stored at "+p.Pos(st.Pos())+": the empty-host refusal (and id check) can be bypassed")
+			}
+		})
 	}
 	r.Check(len(bad) == 0, "refuse-unknown", an.FuncName(conn), conn.Pos(), "no registration without a determinable, normalised address", "%s", strings.Join(bad, "; "))
 
@@ -658,6 +694,26 @@ func runC20(p *an.Prog, r *an.Run, tier string) {
 	}
 	if !okPeriod {
 		bad = append(bad, "the keep-alive period does not come from UpdateInterval")
+	}
+	// each keep-alive gets a context that is alive for that keep-alive: a deadline context created once outside the
+	// loop expires and every later keep-alive fails
+	for _, c := range an.Calls(serve, false) {
+		if f := an.CallObj(c); f == nil || f.Name() != "UpdatePeers" {
+			continue
+		}
+		if !inLoop(c.(ssa.Instruction)) {
+			bad = append(bad, "the periodic UpdatePeers call is not in the loop")
+		}
+		d := p.Derives(0, c.Common().Args[1])
+		for _, n := range d.Nodes {
+			if cc, ok := n.(*ssa.Call); ok {
+				if g := an.CallObj(cc); g != nil && g.Pkg() != nil && g.Pkg().Path() == "context" && (g.Name() == "WithTimeout" || g.Name() == "WithDeadline" || g.Name() == "WithCancel") {
+					if !inLoop(cc) {
+						bad = append(bad, "the keep-alives share one "+g.Name()+" context created outside the loop at "+p.Pos(cc.Pos())+": once it ends every later keep-alive fails and the loop dies by itself")
+					}
+				}
+			}
+		}
 	}
 	r.Check(len(bad) == 0, "interval", an.FuncName(serve), serve.Pos(), "period = UpdateInterval, default KeepaliveInterval", "%s", strings.Join(bad, "; "))
 
